@@ -5,7 +5,7 @@ CONSTANTS
   MaxVersionArgs = {0, 1, 2}
   CustomPolicies = {"oddid", "oldserial", "none"}
   IdArgs = {1, 2, 3, 4, 9}
-  SerialArgs = {1, 2, 7}
+  SerialArgs = {0, 1, 2, 7}
   MaxCommits = 4
   MaxDepth = 9
 CONSTRAINT Bound
